@@ -87,6 +87,24 @@ func main() {
 		r.Rule("seeded runs of gensign.Run with the real regular handler (built by NewHandler from JSON configuration) over a scripted forwarded agent. Per run: agent behaviour in {honest with the key, honest without it, signs with another key, signs the challenge with one bit flipped / empty data / the previous challenge, replays the previous run's signature, garbage reply, well-formed reply of the wrong type, empty signature blob, wrong format string, truncated signature, failure, closes the connection} x user key type {RSA, ECDSA P-256/384/521, Ed25519, sk-ssh-ed25519@openssh.com} x registered-key directory state {<name>.pub, bare <name>, both (same / different keys), none, unparsable, empty file, another user's key under this name, right key under another name only, <name>.pub unusable while a bare <name> holds the requester's key, <name>.pub a directory / a symlink to the key / a dangling symlink (with and without a bare <name>), an OpenSSH certificate over the user's key (agent holding the certificate identity and/or the issuing key)} x policy {NONS, NSOK, other} x hard-key flag; sequences of 2..6 runs on the same agent (replay / freshness); plus handler lists of 1..4 stub/real handlers with every accept/reject pattern; plus runs while the process entropy source (crypto/rand.Reader) answers in pieces of 1, 7, 32, 63 bytes or fails (the challenge is still 64 fresh bytes, resp. nobody is authenticated). Oracle from the wire log alone: a signer call or an add-identity frame requires that this run's sign request named a registered key and was answered with a signature that the harness itself verifies over exactly the challenge sent, and policy NONS without hard key. distinct_nontrivial = distinct (behaviour, directory state, policy, hard-key, key type, outcome) combinations + distinct handler-list patterns")
 		r.Assume("x/crypto/ssh signature verification is the reference for 'valid signature'", "login names contain no path separator", "unpredictability is observed as length >= 32, distinctness over the whole run, per-bit balance within 6 sigma (and getrandom provenance under strace in the thorough tier)")
 		gen.Pool()
+		// SSH_AUTH_SOCK of the RA's own process names some agent too (the operator's, another requester's): here one that
+		// holds every key of the pool and would answer any challenge. Every request of this run has a forwarded agent
+		// of its own, handed to its handler as a connection: nothing may ever arrive at the bystander.
+		bystander := wire.New()
+		defer bystander.Close()
+		if bsock, berr := bystander.Listen(); berr == nil {
+			for _, k := range gen.Pool() {
+				bystander.Keyring.Add(agent.AddedKey{PrivateKey: k.Priv, Comment: "bystander"})
+			}
+			os.Setenv("SSH_AUTH_SOCK", bsock)
+			defer func() {
+				if n := bystander.NumRequests(); n > 0 {
+					r.Violation(r.CaseAlways("bystander", 0), "request-served-through-an-agent-other-than-the-forwarded-one", fmt.Sprintf("%d requests arrived at the agent named by the RA process's own SSH_AUTH_SOCK; every request of the run had a forwarded agent of its own", n), nil)
+				} else {
+					r.Count("requests that reached the agent named by the process's own SSH_AUTH_SOCK", 0)
+				}
+			}()
+		}
 		mon := &chalMon{seen: map[[32]byte]bool{}}
 		nseq := r.Pick(450, 12000)
 		var wg sync.WaitGroup
